@@ -26,7 +26,7 @@ RULE = (
     "hash of the spec."
 )
 SHARDS = {"quick": 16, "thorough": 16}
-SEQ = gen.Profile(ifuns=False, undefined=False, invariants=False, nested_fluent_args=False, max_objects=3, max_fluents=4, decimal_only=True, fluent_kinds=["bool", "bool", "int", "real"])
+SEQ = gen.Profile(ifuns=False, undefined=False, invariants=False, nested_fluent_args=False, max_objects=3, max_fluents=4, decimal_only=True, fluent_kinds=["bool", "bool", "int", "real", "real"], rational_divisors=True)
 TEMP = gen.Profile(
     ifuns=False, bounded=False, invariants=False, undefined=False, max_fluents=4, max_objects=3, max_arity=1, nested_fluent_args=False,
     division=False, decimal_only=True, temporal_delays=True, timed_items=True, dur_fluents_grow=False,
@@ -173,12 +173,16 @@ def check(ctx, case):
             e2 = sorted((str(t), sorted(map(effstr, es))) for t, es in a2.effects.items())
             if e1 != e2:
                 raise Violation("timed-effects-differ", f"{a.name}: {e1} became {e2}", case)
-    te1 = sorted((str(t), sorted(map(effstr, es))) for t, es in problem.timed_effects.items())
-    te2 = sorted((str(t), sorted(map(effstr, es))) for t, es in q.timed_effects.items())
+    from checks.c20 import timdig as _timdig
+
+    te1 = sorted((repr(_timdig(t)), sorted(map(effstr, es))) for t, es in problem.timed_effects.items())
+    te2 = sorted((repr(_timdig(t)), sorted(map(effstr, es))) for t, es in q.timed_effects.items())
     if te1 != te2:
         raise Violation("problem-timed-effects-differ", f"{te1} became {te2}", case)
-    tg1 = sorted((str(t), sorted({canon(g_) for g_ in es})) for t, es in problem.timed_goals.items())
-    tg2 = sorted((str(t), sorted({canon(g_) for g_ in es})) for t, es in q.timed_goals.items())
+    from checks.c20 import ivdig, timdig
+
+    tg1 = sorted((repr(ivdig(t)), sorted({canon(g_) for g_ in es})) for t, es in problem.timed_goals.items())
+    tg2 = sorted((repr(ivdig(t)), sorted({canon(g_) for g_ in es})) for t, es in q.timed_goals.items())
     if tg1 != tg2:
         raise Violation("timed-goals-differ", f"{tg1} became {tg2}", case)
     # verdict equality on generated plans
